@@ -72,6 +72,25 @@ def parseStmt : Nat → List String → Option (Stmt × List String)
         some (Stmt.native true false true 1 (pre ++ [Stmt.enqueue [Stmt.native true false true 1 post]]), r2)
       | none => none
     | none => none
+  | fuel + 1, "B" :: rest =>
+    -- (async function outer(){ await (async function inner(){ PRE; await 1; POST })(); POST2 })()
+    -- inner's continuation J1 is queued at `await 1`; outer's continuation is queued when inner's promise settles:
+    -- J2 (runs POST2) at the end of J1, or a continuation that only re-throws (no events) if PRE or POST threw.
+    match parseBlock fuel rest with
+    | some (pre, r1) =>
+      match parseBlock fuel r1 with
+      | some (post, r2) =>
+        match parseBlock fuel r2 with
+        | some (post2, r3) =>
+          let gen (b : List Stmt) : Stmt := Stmt.native true false true 1 b
+          let jFail : List Stmt := [gen [Stmt.throw]]
+          let j2 : List Stmt := [gen post2]
+          let j1 : List Stmt := [gen [Stmt.tryc true false (post ++ [Stmt.enqueue j2]) [Stmt.enqueue jFail] []]]
+          let inner : Stmt := gen [Stmt.tryc true false (pre ++ [Stmt.enqueue j1]) [Stmt.enqueue jFail] []]
+          some (gen [inner], r3)
+        | none => none
+      | none => none
+    | none => none
   | fuel + 1, "F" :: n :: brk :: rest =>
     match n.toNat?, parseBlock fuel rest with
     | some k, some (b1, r1) =>
@@ -111,10 +130,25 @@ def runCase (hdr : List String) (prog : List Stmt) : String :=
       let st0 := if pre == "intr" then { st0 with flag := true, val := w }
                  else if pre == "intrclear" then { st0 with flag := false, val := w }   -- Interrupt(w); ClearInterrupt()
                  else st0
-      -- api `try` = Runtime.Try: same frames, but leave() is not called (queued jobs wait for the next call)
-      let (o1, st1) := apiCallJ (api != "try") modelFuel ⟨k, v⟩ prog st0
-      let (o2, st2) := apiCall modelFuel ⟨0, 0⟩ [Stmt.log 999] { st1 with log := [] }
-      s!"res={outStr o1} log={logStr st1.log} st={stStr st1} after={outStr o2} log2={logStr st2.log} st2={stStr st2}"
+      let fmt (res : String) (st1 : St) : String :=
+        let (o2, st2) := apiCall modelFuel ⟨0, 0⟩ [Stmt.log 999] { st1 with log := [] }
+        s!"res={res} log={logStr st1.log} st={stStr st1} after={outStr o2} log2={logStr st2.log} st2={stStr st2}"
+      if api == "errstr" then
+        -- RunString("throw {toString(){PROG}}"), then the host calls err.Error() while idle: valueString runs the
+        -- toString under vm.try, swallows an uncatchable and (depth 0) calls leaveAbrupt; leave() is not called
+        let (o0, s0) := apiCall modelFuel ⟨k, v⟩ [Stmt.throw] st0
+        match o0 with
+        | .thrown =>
+          let (o1, s1) := apiCallJ false modelFuel ⟨k, v⟩ prog s0
+          match o1 with
+          | .normal => fmt "errstr:boom" s1
+          | .oof => fmt "OOF" s1
+          | _ => fmt "errstr:placeholder" s1
+        | o => fmt (outStr o) s0
+      else
+        -- api `try` = Runtime.Try: same frames, but leave() is not called (queued jobs wait for the next call)
+        let (o1, st1) := apiCallJ (api != "try") modelFuel ⟨k, v⟩ prog st0
+        fmt (outStr o1) st1
     | _, _, _ => "ERR bad numbers"
   | _ => "ERR bad case header"
 
